@@ -75,8 +75,23 @@ def _stable_lets(text):
   return _LET.sub(sub, text)
 
 
+WALL_FACTOR = 6      # wall-clock backstop = CPU budget x this (+5 s)
+
+
+def _limited(cmd, cpu_s):
+  """The solver command under a CPU-time limit (ulimit -t): budgets are CPU seconds, so a
+  verdict does not flip to `unknown` merely because all cores are busy."""
+  return ['sh', '-c', f'ulimit -t {int(cpu_s) + 1}; exec "$@"', 'sh'] + cmd
+
+
+def _killed_by_limit(p):
+  return p.returncode in (-24, -9, 152, 137, 158) or \
+      'CPU time limit' in ((p.stderr or '') + (p.stdout or ''))
+
+
 def _run(cmd, path, timeout):
   t0 = time.time()
+  wall = timeout * WALL_FACTOR + 5
   try:
     if 'cvc5' in cmd[0]:
       with open(path) as fh:
@@ -86,25 +101,27 @@ def _run(cmd, path, timeout):
         fh.write('(set-logic HO_ALL)\n' + body)
       try:
         extra = ['--strings-exp'] if '(String' in body or 'str.' in body else []
-        p = subprocess.run(cmd + extra + [f'--tlimit={int(timeout * 1000)}', path2],
-                           capture_output=True, text=True, timeout=timeout + 5)
+        p = subprocess.run(_limited(cmd + extra + [f'--tlimit={int(wall * 1000)}', path2],
+                                    timeout),
+                           capture_output=True, text=True, timeout=wall + 5)
       finally:
         os.unlink(path2)
       out = (p.stdout or '').strip().splitlines()
       first = out[0].strip() if out else ''
       if first in ('unsat', 'sat', 'unknown'):
         return first, time.time() - t0, ''
-      if 'interrupted' in (p.stdout + p.stderr) or 'timeout' in (p.stdout + p.stderr):
+      if 'interrupted' in (p.stdout + p.stderr) or 'timeout' in (p.stdout + p.stderr) or \
+          _killed_by_limit(p):
         return 'timeout', time.time() - t0, ''
       return 'error', time.time() - t0, (p.stdout + p.stderr)[:300]
     else:
-      full = cmd + [f'-T:{int(timeout)}', path]
-    p = subprocess.run(full, capture_output=True, text=True, timeout=timeout + 5)
+      full = _limited(cmd + [f'-T:{int(wall)}', path], timeout)
+    p = subprocess.run(full, capture_output=True, text=True, timeout=wall + 5)
     out = (p.stdout or '').strip().splitlines()
     first = out[0].strip() if out else ''
     if first in ('unsat', 'sat', 'unknown'):
       return first, time.time() - t0, ''
-    if 'timeout' in (p.stdout + p.stderr):
+    if 'timeout' in (p.stdout + p.stderr) or _killed_by_limit(p):
       return 'timeout', time.time() - t0, ''
     return 'error', time.time() - t0, (p.stdout + p.stderr)[:300]
   except subprocess.TimeoutExpired:
@@ -123,7 +140,8 @@ def discharge_one(job):
   try:
     backends = BACKENDS + (THOROUGH_EXTRA if thorough else [])
     if len(job) > 5 and job[5]:
-      backends = [('z3-default', ['z3-new'], 25), ('cvc5', BACKENDS[2][1], 15)]
+      backends = [('z3-ematch', BACKENDS[0][1], 20), ('z3-default', ['z3-new'], 25),
+                  ('cvc5', BACKENDS[2][1], 15)]
       thorough = False
     if canary:
       # must-NOT-be-provable checks: a short attempt is all that is needed
